@@ -20,7 +20,10 @@ RULE = ("K: (a) _reversible_slice_boundaries for every T<=Tb, 1<=k<=max(T,1) com
         "dipole}; thorough: the full grid switch kind x {plane, magnetic dipole, electric dipole}); every quick run contains one scene with a "
         "lossless FULL 9-component symmetric positive definite inverse-permittivity tensor (all off-diagonals non-zero, random per "
         "cell) and the gradient taken w.r.t. the 9-component array; thorough/search rotate which off-diagonal pairs are non-zero "
-        "(full, xy, xz, yz) and add full inverse-permeability tensors, with the real backward/forward_single_args_wrapper traced and their schedule compared with the model. "
+        "(full, xy, xz, yz) and add full inverse-permeability tensors; every quick run contains a TILTED MAGNETIC dipole (non-zero azimuth and elevation, "
+        "signs rotating) and rotates over the plane-source classes (Uniform, Gaussian, box Region; Mode in thorough), directions "
+        "+/-, tilted / untilted plane sources, dipole polarisation axes and tilted electric dipoles, so every `inverse` branch of "
+        "every source kind is exercised; thorough/search run the whole source grid, with the real backward/forward_single_args_wrapper traced and their schedule compared with the model. "
         "Independent oracles: toy gradient vs plain autodiff through a Python loop (dlt=0), reversible vs checkpointed gradient.")
 
 TOL = 1e-9
@@ -287,13 +290,29 @@ def build_scene(sp):
     sw = make_switch(sp.get("switch"), T, dt)
     if sw is not None:
         skw["switch"] = sw
+    tilt = sp.get("tilt") or [0.0, 0.0]
     if src_kind.startswith("plane"):
-        src = fdtdx.UniformPlaneSource(partial_grid_shape=(None, None, 1), wave_character=wave, temporal_profile=prof,
-                                       direction="+", fixed_E_polarization_vector=(1, 0, 0), **skw)
+        # every plane-source class of the library: Uniform / Gaussian TFSF plane, TFSF box region; both directions; tilted or not
+        pkw = dict(wave_character=wave, temporal_profile=prof, direction=sp.get("direction", "+"),
+                   fixed_E_polarization_vector=(1, 0, 0), azimuth_angle=float(tilt[0]), elevation_angle=float(tilt[1]), **skw)
+        cls = sp.get("plane_cls", "uniform")
+        if cls == "uniform":
+            src = fdtdx.UniformPlaneSource(partial_grid_shape=(None, None, 1), **pkw)
+        elif cls == "gaussian":
+            src = fdtdx.GaussianPlaneSource(partial_grid_shape=(None, None, 1), radius=1.6 * RES, **pkw)
+        elif cls == "region":
+            src = fdtdx.TFSFPlaneSourceRegion(partial_grid_shape=(None, None, 2), propagation_axis=2, periodic_axes=(0, 1), **pkw)
+        elif cls == "mode":                  # shares update_E/update_H (and their inverse branch) with the TFSF plane sources
+            mkw = {k: v for k, v in pkw.items() if k not in ("fixed_E_polarization_vector",)}
+            src = fdtdx.ModePlaneSource(partial_grid_shape=(None, None, 1), mode_index=0, **mkw)
+        else:
+            raise ValueError(cls)
         cons += [src.same_size(vol, axes=(0, 1)), src.place_at_center(vol, axes=(0, 1)),
                  src.set_grid_coordinates(axes=(2,), sides=("-",), coordinates=(zs,))]
     else:
-        src = fdtdx.PointDipoleSource(partial_grid_shape=(1, 1, 1), wave_character=wave, temporal_profile=prof, polarization=0,
+        # electric / magnetic point dipole, any polarisation axis, axis-aligned or tilted (azimuth / elevation in degrees)
+        src = fdtdx.PointDipoleSource(partial_grid_shape=(1, 1, 1), wave_character=wave, temporal_profile=prof,
+                                      polarization=int(sp.get("pol", 0)), azimuth_angle=float(tilt[0]), elevation_angle=float(tilt[1]),
                                       source_type="magnetic" if src_kind == "dipole_mag_gauss" else "electric", **skw)
         cons.append(src.set_grid_coordinates(axes=(0, 1, 2), sides=("-", "-", "-"), coordinates=(n[0] // 2, n[1] // 2, zs)))
     objects.append(src)
@@ -447,21 +466,55 @@ def scene_property_fails(sp, ev=None):
     return None
 
 
+def seed_tilt(seed):
+    """non-zero azimuth / elevation in degrees; both signs of both angles occur over the seeds"""
+    az = (20.0 + 7.0 * (seed % 5)) * (-1.0 if seed % 2 else 1.0)
+    el = (15.0 + 5.0 * (seed % 4)) * (-1.0 if (seed // 2) % 2 else 1.0)
+    return [az, el]
+
+
 def quick_scenes(seed):
-    """four fixed shapes; [1] and [2] ALWAYS carry a late-start switch (H-injecting plane source with a pulse, electric dipole);
-    [2] ALWAYS has a full 9-component symmetric positive definite inverse-permittivity tensor with all off-diagonals non-zero;
-    [3] rotates with the seed through switch kinds x H-injecting source kinds"""
+    """four fixed shapes, every `inverse` branch of the sources is in every run:
+    [0] TFSF plane source (class rotates Uniform / Gaussian / box Region), always on, pulse non-zero at t<0;
+    [1] ALWAYS a plane source with a pulse and a late-start switch, PML; direction and tilt rotate with the seed;
+    [2] ALWAYS an electric dipole with a late-start switch in a FULL 9-component inverse-permittivity tensor (the non-axis-aligned
+        branch of update_E); polarisation axis and tilt rotate;
+    [3] ALWAYS a TILTED MAGNETIC dipole (the non-axis-aligned branch of update_H), conductive medium with a checkpoint at every
+        step; tilt angles (both signs), polarisation axis and switch kind (interval / fixed / late start + interval) rotate"""
     rot_switch = ("interval", "fixed", "start_interval")[seed % 3]
-    rot_source = ("plane_gauss", "dipole_mag_gauss")[(seed // 3) % 2]
     return [
-        {"kind": "scene", "T": 9, "n": [4, 4, 6], "bounds": "periodic", "source": "plane_gauss", "ks": [1, 3], "seed": seed},
+        {"kind": "scene", "T": 9, "n": [4, 4, 6], "bounds": "periodic", "source": "plane_gauss", "ks": [1, 3], "seed": seed,
+         "plane_cls": ("uniform", "gaussian", "region")[seed % 3]},
         {"kind": "scene", "T": 10, "n": [4, 4, 10], "bounds": "pml_z", "source": "plane_custom", "ks": [2], "seed": seed + 1,
-         "src_z": 3, "switch": "start"},
+         "src_z": 3, "switch": "start", "direction": "+-"[(seed // 2) % 2], "tilt": seed_tilt(seed + 1) if seed % 2 else None},
         {"kind": "scene", "T": 8, "n": [4, 4, 6], "bounds": "pec_pmc", "source": "dipole_gauss", "ks": [1], "seed": seed + 2,
-         "switch": "start", "aniso": "full"},
-        {"kind": "scene", "T": 6, "n": [4, 4, 6], "bounds": "periodic", "source": rot_source, "ks": [6], "seed": seed + 3,
-         "lossy": 100.0, "switch": rot_switch},
+         "switch": "start", "aniso": "full", "pol": seed % 3, "tilt": seed_tilt(seed + 2) if (seed // 3) % 2 else None},
+        {"kind": "scene", "T": 6, "n": [4, 4, 6], "bounds": "periodic", "source": "dipole_mag_gauss", "ks": [6], "seed": seed + 3,
+         "lossy": 100.0, "switch": rot_switch, "tilt": seed_tilt(seed + 3), "pol": (seed // 3) % 3},
     ]
+
+
+def source_scenes(seed, T=6):
+    """every source kind of the library with its orientation options: electric / magnetic dipole (each polarisation axis,
+    axis-aligned and tilted with both signs), Uniform / Gaussian / Region / Mode plane sources (both directions, tilted or
+    not), switches rotating"""
+    out = []
+    base = {"kind": "scene", "T": T, "n": [4, 4, 6], "bounds": "periodic", "width": 40}
+    i = 0
+    for src in ("dipole_gauss", "dipole_mag_gauss"):
+        for var in ({"pol": 1}, {"pol": 2, "tilt": seed_tilt(seed + i)}, {"pol": 0, "tilt": seed_tilt(seed + i + 1)}):
+            out.append({**base, "source": src, "ks": [1 + i % 3], "seed": seed + i, **var,
+                        **({"switch": SWITCH_KINDS[i % 4]} if i % 2 else {})})
+            i += 1
+    for cls in ("uniform", "gaussian", "region"):
+        for var in ({"direction": "-"}, {"direction": "+-"[i % 2], "tilt": seed_tilt(seed + i)}):
+            if cls == "region":       # a box region with periodic transverse axes rejects tilted incidence at placement
+                var = {k: v for k, v in var.items() if k != "tilt"}
+            out.append({**base, "source": ("plane_gauss", "plane_custom")[i % 2], "plane_cls": cls, "ks": [1 + i % 3], "seed": seed + i,
+                        **var, **({"switch": SWITCH_KINDS[i % 4]} if i % 2 else {})})
+            i += 1
+    out.append({**base, "n": [5, 5, 6], "source": "plane_gauss", "plane_cls": "mode", "ks": [2], "seed": seed + i})
+    return out
 
 
 def thorough_scenes(seed):
@@ -480,7 +533,7 @@ def thorough_scenes(seed):
          "width": 40, "aniso": "xy", "finding": FINDING_ANISO_PML},
         {"kind": "scene", "T": 8, "n": [3, 3, 11], "bounds": "pml_z", "source": "dipole_mag_gauss", "ks": [2], "seed": 6, "src_z": 5,
          "width": 40, "aniso_mu": "full"},
-    ] + switch_scenes(seed + 8) + aniso_scenes(seed + 40)
+    ] + switch_scenes(seed + 8) + aniso_scenes(seed + 40) + source_scenes(seed + 60)
 
 
 def aniso_scenes(seed, T=7):
@@ -530,6 +583,15 @@ def random_scene(rng, i):
         sp.pop("magnetic", None)
         if rng.chance(0.5):
             sp["aniso_mu"] = ANISO_KINDS[(i + 2) % 4]
+    if sp["source"].startswith("plane"):
+        sp["plane_cls"] = ("uniform", "gaussian", "region")[i % 3]
+        sp["direction"] = rng.choice(["+", "-"])
+        if rng.chance(0.4) and sp["plane_cls"] != "region":
+            sp["tilt"] = seed_tilt(rng.randint(0, 40))
+    else:
+        sp["pol"] = rng.randint(0, 2)
+        if rng.chance(0.5):
+            sp["tilt"] = seed_tilt(rng.randint(0, 40))
     if source != "plane_cw" and rng.chance(0.6):
         sp["switch"] = SWITCH_KINDS[i % len(SWITCH_KINDS)]
         if source == "dipole_gauss" and rng.chance(0.5):
@@ -558,10 +620,11 @@ def run_scene(ctx, sp):
     pml = sp["bounds"].startswith("pml")
     for k, de, dm, log in res:
         ctx.case(sample={"scene": sp, "k": k, "rel_diff_eps": de, "rel_diff_mu": dm, "grad_scale": sc_e} if len(ctx.samples) < 5 else None,
-                 nontrivial=("scene", sp["bounds"], sp["source"], k > 1, bool(sp.get("lossy")), bool(sp.get("magnetic")), sp.get("switch"), sp.get("aniso"), sp.get("aniso_mu"))
+                 nontrivial=("scene", sp["bounds"], sp["source"], k > 1, bool(sp.get("lossy")), bool(sp.get("magnetic")), sp.get("switch"), sp.get("aniso"), sp.get("aniso_mu"), sp.get("plane_cls"), bool(sp.get("tilt")), sp.get("direction"))
                  if sc_e > 0 else None, zero_gradient=not sc_e > 0,
                  op="scene", bounds=sp["bounds"], source=sp["source"], slices=min(k, 4), lossy=bool(sp.get("lossy")),
-                 switch=sp.get("switch", "always_on"), eps_tensor=sp.get("aniso") or "iso/diag", mu_tensor=sp.get("aniso_mu") or "iso/diag")
+                 switch=sp.get("switch", "always_on"), source_cls=sp.get("plane_cls", "uniform") if sp["source"].startswith("plane") else "dipole", tilted=bool(sp.get("tilt")),
+                 eps_tensor=sp.get("aniso") or "iso/diag", mu_tensor=sp.get("aniso_mu") or "iso/diag")
         ctx.expect_equal("real-schedule", {**sp, "ks": [k]}, fmt_log(log), expected_sched(ctx, sp["T"], k))
         ctx.impl_property_evals += 1
     if not finite:
@@ -634,7 +697,7 @@ def run(ctx):
     # (c) the property on the real solver
     scenes = quick_scenes(ctx.rng.randint(0, 10 ** 6))
     if ctx.thorough:
-        scenes += thorough_scenes(7) + [random_scene(ctx.rng, i) for i in range(10)]
+        scenes += thorough_scenes(7) + [random_scene(ctx.rng, i) for i in range(8)]
     for i, sp in enumerate(scenes):
         run_scene(ctx, sp)
         if i % 4 == 3:
@@ -667,7 +730,7 @@ def search(ctx, hints):
                 return
     cands = [{"kind": "scene", "T": T, "n": [3, 3, 5], "bounds": "periodic", "source": s, "ks": ks, "seed": 5}
              for T in (1, 2, 4) for s in ("plane_custom", "plane_gauss") for ks in ([1], [2] if T >= 2 else [1])]
-    cands += switch_scenes(21, T=5) + aniso_scenes(31, T=5) + quick_scenes(11) + [random_scene(r, i) for i in range(ctx.scale(12, 60))]
+    cands += source_scenes(41, T=5)[:-1] + switch_scenes(21, T=5) + aniso_scenes(31, T=5) + quick_scenes(11) + [random_scene(r, i) for i in range(ctx.scale(12, 60))]
     for sp in cands:
         ctx.impl_property_evals += 1
         release_jit()
